@@ -5,7 +5,8 @@ import itertools
 from . import core
 
 PID = "C19"
-MANIFEST = dict(text="Theorems sse_roundtrip / sse_roundtrip_messages / sse_data_any_text / normalise_meaning / ping_ignored / "
+MANIFEST = dict(text="Theorem stream_decodes_to_prefix composes this with C06: in every reachable state of the WSGI and ASGI event-stream transition systems (every schedule, every close/disconnect point) the bytes handed to the server decode to exactly the events 0..d-1 the producer yielded, in order, pings invisible. "
+         "Theorems sse_roundtrip / sse_roundtrip_messages / sse_data_any_text / normalise_meaning / ping_ignored / "
              "sequence_in_order / sequence_messages / splitlines_refuted / splitlines_refuted_unicode: for every "
              "data text (all code points) and every well-formed event dict the text written by build_bytes_from_sse is "
              "decoded by the WHATWG event-stream interpretation (transcribed as the specification) into exactly one block with the "
